@@ -12,10 +12,10 @@ import world
 class HistProp:
     kernel_files = []
     oracle_vos = ['theories/Run/SCore.vo', 'theories/Run/SSeries.vo']
-    model_vos = ['theories/Run/RCore.vo', 'theories/Run/RSeries.vo']
+    model_vos = ['theories/Run/RCore.vo', 'theories/Run/RSeries.vo', 'theories/Run/RSim.vo']
     kernel_files = ['KCore.v']
     oracle_imports = ['From DM Require Import Run.SCore Run.SSeries.']
-    model_imports = ['From DM Require Import Run.SCore Run.RCore Run.RSeries.']
+    model_imports = ['From DM Require Import Run.SCore Run.RCore Run.RSeries Run.RSim.']
     series_share = 0.2          # share of the histories that run on tables with SeriesColumns (Spec/SeriesEnc.v)
     p_series = 0.35
     exhaustive = False
@@ -39,7 +39,7 @@ class HistProp:
             'pyfail': None,
             'oracle': '(hist_ok %s %s)' % (steps, final),
             'oracle_vec': '(hist_vec %s %s)' % (steps, final),
-            'model': '(hist_model_ok %s %s)' % (steps, final),
+            'model': '(hist_model_sim_ok %s %s)' % (steps, final),
             'nontrivial': changed >= 2,
             'sig': json.dumps([ops_done, seed], sort_keys=True, default=str),
             'tags': (tags or []) + ['len%02d' % (10 * (len(ops_done) // 10))] + sorted(set(kinds)),
